@@ -28,7 +28,9 @@ Quirks that are mirrored on purpose (they are what the code does):
   * obligations accumulate over *all* matching allow statements, also when another allow is chosen;
   * an unregistered delegator makes the *delegate's* whole resolution fail (`Unauthenticated`), because
     `resolve_delegation` propagates the error of the nested `resolve_at_depth`;
-  * `depth >= MAX_DELEGATION_DEPTH` silently yields no candidate.
+  * `depth >= MAX_DELEGATION_DEPTH` silently yields no candidate;
+  * in the re-delegation branch an unregistered or inactive re-delegating Principal yields no candidate (since the
+    repair of F-C19-4), whereas an unregistered *direct* delegator is still an error.
 
 Encodings (stated in notes/C19.md): instants are `Nat` with `0` for the empty string (the code
 compares fixed-width RFC 3339 UTC strings, an order embedding); Governance ids (`owner:…`,
@@ -377,6 +379,10 @@ structure DelegationRow where
   conditions : Conditions := {}
   constraints : Constraints := {}
   parent : String := ""
+  /-- `row_id_of(parent_delegation)`, computed once when the row is written (the driver fills it with
+  `rowIdOf parent`; kept beside the text so that the kernel can evaluate examples without reducing
+  string splitting). Invariant of every world the driver builds: `parentRow = rowIdOf parent`. -/
+  parentRow : Option Nat := none
   mayRedelegate : Bool := false
   status : String := "active"
 deriving DecidableEq, Repr, Inhabited
@@ -487,13 +493,29 @@ def conferrable (pv : ParentView) (scope : Scope) (cond : Conditions) (cons : Co
 def isOwnerOf (sp : SpaceRow) (pid : String) : Bool :=
   sp.ownerPrincipal = pid || sp.owners.contains pid
 
+/-- The candidate half of `resolve_at_depth(principal, &[], depth)`: the Principal's own Grants (direct,
+then per group) followed by the Delegations made to it, each resolved by `rec`; nothing when the
+Principal is not live. -/
+def candidatesOf (w : World) (sp : SpaceRow) (rec : DelegationRow → Except Err (Option Candidate))
+    (pid : String) (live : Bool) : Except Err (List Candidate) :=
+  if live then
+    match collectCandidates rec (w.delegationsTo sp.id pid) with
+    | .error e => .error e
+    | .ok ds => .ok ((w.grantsFor sp.id pid (w.groupsOf pid)).map candidateOfGrant ++ ds)
+  else .ok []
+
+/-- The Candidate a Delegation row resolves to once its actions have been attenuated. -/
+def delegatedCandidate (d : DelegationRow) (actions : List String) : Candidate :=
+  { id := .delegation d.rowId, actions := actions, scope := d.scope, conditions := d.conditions,
+    constraints := d.constraints, delegationAllowed := false }
+
 /-- `resolve_delegation(store, space, delegation, depth)` with `fuel = MAX_DELEGATION_DEPTH - depth`.
 The Space row is the one the outer resolution already loaded. -/
 def resolveDelegation (w : World) (sp : SpaceRow) : Nat → DelegationRow → Except Err (Option Candidate)
   | 0, _ => .ok none
   | fuel + 1, d =>
     if d.parent ≠ "" then
-      match rowIdOf d.parent with
+      match d.parentRow with
       | none => .ok none
       | some pid =>
         match w.delegation pid with
@@ -502,40 +524,35 @@ def resolveDelegation (w : World) (sp : SpaceRow) : Nat → DelegationRow → Ex
           if linked.status ≠ "active" ∨ linked.spaceId ≠ sp.id ∨ linked.delegate ≠ d.delegator ∨
               linked.mayRedelegate = false then .ok none
           else
-            match resolveDelegation w sp fuel linked with
-            | .error e => .error e
-            | .ok none => .ok none
-            | .ok (some inherited) =>
-              if !inherited.scope.contains d.scope || !inherited.conditions.contains d.conditions ||
-                  !inherited.constraints.contains d.constraints then .ok none
+            -- the Principal who re-delegated must be registered and active (commit 3f00f56, F-C19-4)
+            match w.findPrincipal d.delegator with
+            | none => .ok none
+            | some rp =>
+              if rp.status ≠ "active" then .ok none
               else
-                let actions := d.actions.filter (fun a => inherited.actions.contains a)
-                if actions.isEmpty then .ok none
-                else .ok (some { id := .delegation d.rowId, actions := actions, scope := d.scope,
-                                 conditions := d.conditions, constraints := d.constraints,
-                                 delegationAllowed := false })
+                match resolveDelegation w sp fuel linked with
+                | .error e => .error e
+                | .ok none => .ok none
+                | .ok (some inherited) =>
+                  if !inherited.scope.contains d.scope || !inherited.conditions.contains d.conditions ||
+                      !inherited.constraints.contains d.constraints then .ok none
+                  else
+                    let actions := d.actions.filter (fun a => inherited.actions.contains a)
+                    if actions.isEmpty then .ok none
+                    else .ok (some (delegatedCandidate d actions))
     else
       -- nested `resolve_at_depth(delegator, &[], depth + 1)`
       match w.findPrincipal d.delegator with
       | none => .error .unauthenticated
       | some p =>
-        let live := p.status = "active"
-        let groups := if live then w.groupsOf d.delegator else []
-        let nested : Except Err (List Candidate) :=
-          if live then
-            match collectCandidates (resolveDelegation w sp fuel) (w.delegationsTo sp.id d.delegator) with
-            | .error e => .error e
-            | .ok ds => .ok ((w.grantsFor sp.id d.delegator groups).map candidateOfGrant ++ ds)
-          else .ok []
-        match nested with
+        match candidatesOf w sp (resolveDelegation w sp fuel) d.delegator (p.status = "active") with
         | .error e => .error e
         | .ok cands =>
-          let pv : ParentView := { isOwner := live && isOwnerOf sp d.delegator, candidates := cands }
+          let pv : ParentView :=
+            { isOwner := decide (p.status = "active") && isOwnerOf sp d.delegator, candidates := cands }
           let actions := d.actions.filter (conferrable pv d.scope d.conditions d.constraints)
           if actions.isEmpty then .ok none
-          else .ok (some { id := .delegation d.rowId, actions := actions, scope := d.scope,
-                           conditions := d.conditions, constraints := d.constraints,
-                           delegationAllowed := false })
+          else .ok (some (delegatedCandidate d actions))
 
 /-- The walk of `resolve_named_chain` over the named ids: returns the last row. -/
 def walkChain (w : World) (space : String) :
@@ -582,13 +599,9 @@ def resolve (w : World) (space : String) (a : Auth) : Except Err EA :=
       let live := p.status = "active"
       let groups := if live then w.groupsOf a.principalId else []
       let cands : Except Err (List Candidate) :=
-        if live then
-          if a.delegationChain.isEmpty then
-            match collectCandidates (resolveDelegation w sp maxDelegationDepth)
-                    (w.delegationsTo space a.principalId) with
-            | .error e => .error e
-            | .ok ds => .ok ((w.grantsFor space a.principalId groups).map candidateOfGrant ++ ds)
-          else resolveNamedChain w sp a.principalId a.delegationChain maxDelegationDepth
+        if a.delegationChain.isEmpty then
+          candidatesOf w sp (resolveDelegation w sp maxDelegationDepth) a.principalId live
+        else if live then resolveNamedChain w sp a.principalId a.delegationChain maxDelegationDepth
         else .ok []
       match cands with
       | .error e => .error e
